@@ -368,6 +368,9 @@ func adjacencyFamily() []*Ast {
 	for _, an := range []string{"^", "$", `\A`, `\z`, `\Z`, `\b`, `\B`} {
 		a := func() *Ast { return &Ast{Kind: AAnchor, Name: an} }
 		out = append(out, cat(a(), lit('b')), cat(lit('b'), a()), cat(lit('a'), lit('b'), a()), cat(a(), lit('a'), lit('b')), cat(grp(lit('b')), a()), cat(a(), grp(lit('b'))))
+		// fixed-length patterns WITHOUT a literal prefix in front of (behind) the anchor: the searches that jump to
+		// "end minus length" must know that $ and \Z also hold before a final newline
+		out = append(out, cat(cls(), lit('b'), a()), cat(cls(), cls(), a()), cat(&Ast{Kind: ADot}, a()), cat(a(), cls(), lit('b')), cat(a(), &Ast{Kind: ADot}, lit('b')), cat(grp(cls()), cls(), a()))
 	}
 	return out
 }
